@@ -104,6 +104,9 @@ def run(ctx):
                 if short(n.get("name") or "") == "release":
                     rel += 1
                     ctx.bad("R18.3", f, "release-call", "release() drops ownership without running the deleter", (f, n.get("ln")))
+    from .common import fx
+    g = fx(ctx, "releasing::leak")
+    ctx.fixture("R18.3", "releasing::leak", g is not None and any(short(n.get("name") or "") == "release" for _, _, e in g.all_elems() for n in elem_calls(e, into_sc=True)), True, "release() recognised")
     if rel == 0 and unique_idiom:
         ctx.ok("R18.3", QP, "no-release", "no release() in %d member functions" % len(qm), qm[0].site if qm else "-")
     resets = [f for f in qm if f.name == "reset"]
